@@ -206,6 +206,38 @@ def run_unit(unit):
                             agg.violation(V("vector.sort_by", "sorting-a-sorted-vector-changes-it", case, want, list(again._underlying), py))
                         agg.outcomes["vector-agree"] += 1
         agg.sample({"vector-sort": kind, "len": n})
+    elif what == "rename":
+        # rename columns through live views so that a NAME moves to another column, then sort by that name
+        from serif import Vector, Table
+        _, kind = unit
+        A = ALPHA[kind]
+        for k0 in itertools.product(A, repeat=3):
+            for k1 in itertools.product(A, repeat=3):
+                for warm in (False, True):
+                    for rev in (False, True):
+                        agg.evals += 1; agg.transitions += 3; agg.states += 1; agg.nontrivial += 1; agg.compared += 1
+                        case = {"kind": kind, "k0": list(k0), "k1": list(k1), "reverse": rev, "map_warm_before_rename": warm,
+                                "history": ["(touch accessor)", "swap the names k0/k1 through live column views", "sort_by('k0')"]}
+                        try:
+                            t = Table([Vector(list(range(3)), name="pos"), Vector(list(k0), name="k0"), Vector(list(k1), name="k1")])
+                            if warm:
+                                t.k0; dir(t)
+                            c0, c1 = t.cols()[1], t.cols()[2]
+                            c0.name = "k1"
+                            c1.name = "k0"
+                            res = t.sort_by("k0", reverse=rev)
+                        except Exception as e:
+                            agg.violation(V("table.sort_by.after-rename", "raises-" + type(e).__name__, case, None, repr(e)[:80]))
+                            continue
+                        want = spec_sort([0, 1, 2], [list(k1)], [rev], True)     # 'k0' now names the former k1 column
+                        got = list(res._underlying[0]._underlying)
+                        if got != want:
+                            old = spec_sort([0, 1, 2], [list(k0)], [rev], True)
+                            agg.violation(V("table.sort_by.after-rename", "sorted-by-the-column-that-used-to-carry-the-name" if got == old else "wrong-order",
+                                            case, want, got))
+                        else:
+                            agg.outcomes["rename-sort-agree"] += 1
+        agg.sample({"history": ["swap names through live views", "sort_by(name)"], "kind": kind})
     elif what == "hist":
         from serif import Vector
         _, kind, maxn = unit
@@ -281,6 +313,7 @@ def check(ctx):
         else:
             units.append(("table", "int", 3, n, None))
     units += [("hist", k, 3) for k in ("int", "str")]
+    units += [("rename", k) for k in ("int", "str")]
     agg = core.merge_all(core.pmap(run_unit, units))
     agg.notes["bound"] = f"tables rows<={N} (1 key) / <={N2} (2 keys) / <={ctx.pick(2,3)} (3 keys); vectors len<={N}"
     agg.notes["exhaustive"] = True
